@@ -315,6 +315,9 @@ def run(ctx):
             if n in scope:
                 for b, i, s in f.assigns():
                     r = s["r"]
+                    if r["k"] == "agg" and r.get("ak") == "array" and r["ops"] and all(o.get("k") == "const" and str(o.get("ty")) == "char" for o in r["ops"]):
+                        # `rest.find(['\n', ';'])`: an array of chars used as a pattern matches any of them
+                        out |= {const_int(o) for o in r["ops"]}
                     if r["k"] == "bin" and r["op"] in ("Eq", "Ne") and r.get("ty") == "char":
                         for o in (r["a"], r["b"]):
                             if const_int(o) is not None:
